@@ -166,6 +166,14 @@ func TestWorker(t *testing.T) {
 	outPath := os.Getenv("VERIF_OUT")
 	thorough := os.Getenv("VERIF_TIER") == "thorough"
 
+	if os.Getenv("VERIF_SELFTEST") == "cron" {
+		if err := cronSelfTest(envInt("VERIF_SELFTEST_N", 20000)); err != nil {
+			fmt.Println("SELFTEST cron FAIL:", err)
+			os.Exit(1)
+		}
+		fmt.Println("SELFTEST cron ok")
+		return
+	}
 	if hs := os.Getenv("VERIF_HASHES"); hs != "" {
 		// determinism self-test: print (run index, variant, seed, trace hash) for the first N runs of this worker slot
 		n, _ := strconv.Atoi(hs)
